@@ -77,6 +77,14 @@ THEOREMS = [
     "PP.PR.sum_is_fold",
     "PP.PR.concat_assoc_former_witness",
     "PP.PR.from_dict_item_step",
+    # deepcopy() of nested groups at every depth (PPProofs/Props/C11Deep.lean, heap model PRHeapDeep.lean)
+    "PP.PRHeap.deepcopy_tokens_fresh",
+    "PP.PRHeap.deepcopy_frame_tokens",
+    "PP.PRHeap.deepcopy_frame_tokens_many",
+    "PP.PRHeap.deepcopy_names_shared",
+    "PP.PRHeap.deepcopy_named_alias_any_depth",
+    "PP.PRHeap.deepcopyN_corr",
+    "PP.PRHeap.deepcopyN_ext",
 ]
 
 KINDS = ["copy", "copy.copy", "deepcopy", "copy.deepcopy", "pickle"]
@@ -531,7 +539,7 @@ def run(ctx):
     PR = pp.ParseResults
     attr_ok = lambda nm: not hasattr(PR, nm)
     proof_ok = ctx.proof_leg("PPProofs.Props.C11", THEOREMS + HEAP_THEOREMS + FROMDICT_THEOREMS,
-                              extra_modules=("PPProofs.Props.C11Heap", "PPProofs.Props.C11FromDict"))
+                              extra_modules=("PPProofs.Props.C11Heap", "PPProofs.Props.C11FromDict", "PPProofs.Props.C11Deep"))
     ctx.rule.append(
         "start objects as in C10 (real parse results of 16 grammars incl. nested groups, list-all names, int tokens; "
         "constructor calls); kinds copy()/copy.copy/deepcopy()/copy.deepcopy/pickle; frames: 1..6 own mutations (the 15 "
